@@ -19,7 +19,7 @@ KINDS = {
     'identity': ('one', 'scale', 'complex_scale'),
     'sparse': ('random', 'product'),
     'dense': ('mps', 'mpo'),
-    'from_vector': ('complex', 'real', 'lowrank', 'int'),
+    'from_vector': ('complex', 'real', 'lowrank', 'int', 'basis'),
     'split_merge': ('left', 'right', 'sqrt'),
     'chain': ('(A+B)@C psi', 'A@(B-C) psi', 'A(psi+chi)', 'A@B-B@A', '(A-B)(psi-chi)', 'A@B@C'),
 }
@@ -280,6 +280,9 @@ def run_case(c):
                 v[0] = 1
         elif var == 'zero':
             v = np.zeros(n)
+        elif var == 'basis':
+            v = np.zeros(n, dtype=complex if rng.random() < 0.5 else float)
+            v[int(rng.integers(n))] = float(rng.choice([1.0, -2.0, 0.5]))
         else:
             v = np.ones(1)
             for _ in range(L):
@@ -305,6 +308,14 @@ def run_case(c):
             good2, w = k.call('MPS.as_vector', r.as_vector)
             if good2:
                 k.cmp('MPS.from_vector', 'reproduces', w, v0, _nrm(v0), 'from_vector(d,n,v,0).as_vector() vs v')
+            # the result is a well-formed MPS that the arithmetic accepts (rank-deficient vectors: product / basis states truncate bonds)
+            bad = oracle.wf_mps(r)
+            if bad:
+                k.fail('MPS.from_vector', 'wf', '; '.join(bad))
+            else:
+                good3, s2 = k.call('add_mps', lambda: r + r)
+                if good3:
+                    k.vec_of('add_mps', s2, 2 * np.asarray(v0), 2 * _nrm(v0), 'from_vector(v) + from_vector(v)')
         return dict(failures=k.fails, nontrivial=bool(L > 1 or d > 1), key=json.dumps(c, sort_keys=True))
     elif kind == 'split_merge':
         # a two-site tensor with physical charges qd0 x qd1 and outer bond charges drawn around a common total
